@@ -148,3 +148,40 @@ Proof.
 Qed.
 
 End DrawSamples.
+
+(* ---------------------------------------------------------------------------------------------- *)
+(* Samples.at: re-centring keeps the residuals *)
+From Coq Require Import QArith.
+Require Import NV.C20.Model.
+
+Lemma vsub_vadd_cancel : forall p r : vec, length p = length r ->
+  Forall2 Qeq (vsub (vadd p r) p) r.
+Proof.
+  induction p as [|a p IH]; destruct r as [|b r]; simpl; intros H; try discriminate; constructor.
+  - unfold qsub, qadd. rewrite !Qred_correct. ring.
+  - apply IH. now injection H.
+Qed.
+
+(* at(new) without old_pos: residuals and keys untouched, samples = new + residual *)
+Lemma jat_none (s : jsmp) (p new : vec) : jpos s = Some p ->
+  jat s new None = Some {| jpos := Some new; jres := jres s |}.
+Proof. intros H. unfold jat. now rewrite H. Qed.
+
+(* at(new, old_pos = current expansion point): the residuals are recovered (up to Qeq) *)
+Lemma jat_old_is_pos (s : jsmp) (p new : vec) : jpos s = Some p ->
+  (forall r, In r (jres s) -> length p = length r) ->
+  exists t, jat s new (Some p) = Some t /\ jpos t = Some new /\
+            Forall2 (Forall2 Qeq) (jres t) (jres s).
+Proof.
+  intros H Hl. eexists. split; [reflexivity|]. split; [reflexivity|].
+  simpl. unfold jsamples. rewrite H. rewrite map_map.
+  induction (jres s) as [|r rs IH]; simpl; constructor.
+  - apply vsub_vadd_cancel. apply Hl. now left.
+  - apply IH. intros r' Hr'. apply Hl. now right.
+Qed.
+
+(* offset-free absolute samples: at(mean, old_pos = mean) stores sample - mean *)
+Lemma jat_absolute (abs : list vec) (mean : vec) :
+  jat {| jpos := None; jres := abs |} mean (Some mean)
+  = Some {| jpos := Some mean; jres := map (fun x => vsub x mean) abs |}.
+Proof. reflexivity. Qed.
